@@ -1,0 +1,24 @@
+//go:build verif
+
+package task
+
+import (
+	"github.com/AliceO2Group/Control/common/gera"
+	"github.com/AliceO2Group/Control/core/task/taskclass"
+)
+
+// VerifC14NewTask builds a Task the way Manager.newTaskForMesosOffer does as far
+// as variable resolution is concerned: class getter, parent role and the
+// properties map wrapped around the class's. Verification harness only (build
+// tag `verif`): lets /verif run the real BuildTaskCommand / BuildPropertyMap
+// without a Mesos offer.
+func VerifC14NewTask(class *taskclass.Class, parent parentRole, name string) *Task {
+	return &Task{
+		name:         name,
+		parent:       parent,
+		className:    class.Identifier.String(),
+		localBindMap: nil,
+		properties:   gera.MakeMap[string, string]().Wrap(class.Properties),
+		GetTaskClass: func() *taskclass.Class { return class },
+	}
+}
